@@ -130,6 +130,7 @@ Section Main.
   Variable cv : chain -> list N -> block -> cvrec.
   Variable tx_valid : chain -> list N -> tx -> bool.
   Variable gt_ok : chain -> tx -> bool.
+  Variable gt_screen : chain -> tx -> bool.
   Variable work_needed : N -> N -> N -> N -> N.
   Variable supply_ok : chain -> list N -> block -> bool.
   Variable hchain : list N -> N.
@@ -285,7 +286,8 @@ Section Main.
     count_type TIssuance drained = 0 ->
     (v_stake_req (view (n_chain _ n)) = 0 \/ count_type TBlockStake drained = 1) ->
     forallb (tx_valid (n_chain _ n) (n_ledger _ n)) (b_txs b) = true ->
-    work_needed (par_burnfee p) ts (par_ts p) (v_heartbeat (view (n_chain _ n))) <= nsum (map t_work drained) ->
+    work_needed (par_burnfee p) ts (par_ts p) (v_heartbeat (view (n_chain _ n)))
+      <= nsum (map t_work (opt_list gt ++ drained)) ->
     validateM dbg n true b = Ok true.
   Proof.
     intros dbg n creator ts gt drained b p Htip Hcreate cC cV Hag Hty Hfeegt Hgt Hpool Hne Hiss Hstake Hvalid Hwork.
@@ -308,7 +310,7 @@ Section Main.
     { intros f Hf. rewrite Hf in Hfeety. exact Hfeety. }
     assert (Hgt1 : forall g, gt = Some g -> is_type TGoldenTicket g = true) by (intros g Hg; apply (Hgt g Hg)).
     unfold agreesb in Hag. fold C atrs fee in Hag. rewrite Etf in Hag.
-    rewrite !andb_true_iff in Hag. destruct Hag as [[[[[Hg Hbf] Hdf] Hsl] Hrh] Hft].
+    rewrite !andb_true_iff in Hag. destruct Hag as [[[[[[Hg Hbf] Hdf] Hsl] Hrh] Hsi] Hft].
     apply eqb_lN_eq in Hg. apply N.eqb_eq in Hbf, Hdf, Hsl, Hrh.
     set (V := c_econ cV) in *.
     assert (Htpt : e_total_payout_treasury V = e_total_payout_treasury C).
@@ -355,11 +357,12 @@ Section Main.
     (* 4: the parent *)
     unfold parent_of. rewrite Htip, N.eqb_refl.
     destruct (par_ghost p); [reflexivity|].
+    rewrite N.eqb_refl. cbn [negb].
     rewrite Htpt, Et1. cbn [bind]. rewrite Htpa, Etr. cbn [bind].
     rewrite N.eqb_refl. cbn [andb negb].
     rewrite Htpg, Egy. cbn [bind]. rewrite N.eqb_refl. cbn [andb negb].
     assert (Hw : (nsum (map t_work (final_txs gt drained atrs fee)) <? work_needed (par_burnfee p) ts (par_ts p) (v_heartbeat (view (n_chain chain n)))) = false).
-    { apply N.ltb_ge. unfold final_txs. rewrite !map_app, !nsum_app. lia. }
+    { apply N.ltb_ge. unfold final_txs. rewrite !map_app, !nsum_app. rewrite map_app, nsum_app in Hwork. lia. }
     rewrite Hw.
     rewrite (final_gt_index gt drained atrs fee) by assumption.
     assert (Hgtpart : (match (if is_some gt then Some 0 else None) with
@@ -379,6 +382,7 @@ Section Main.
     rewrite Hgtpart. cbn [bind].
     (* 5: rebroadcasts, merkle root *)
     rewrite Hsl, Hrh, !N.eqb_refl. cbn [andb negb].
+    rewrite Hsi. cbn [andb negb].
     (* 6: fee transaction *)
     assert (Hfc : fee_tx_check true cV (final_txs gt drained atrs fee) = true).
     { unfold fee_tx_check.
@@ -392,14 +396,15 @@ Section Main.
         assert (Hgs : is_some gt = true).
         { destruct gt; [reflexivity|]. exfalso. apply Hfeegt; [discriminate|reflexivity]. }
         rewrite Hgs. cbn [is_some negb]. apply N.eqb_eq in Hft. rewrite Hft, N.eqb_refl. reflexivity.
-      - reflexivity. }
+      - change (1 <? 0) with false. change (0 <? 0) with false. change (0 =? 0) with true. cbn [andb].
+        apply negb_true_iff in Hft. rewrite Hft. reflexivity. }
     rewrite Hfc. cbn [negb].
     (* 7: the sweep *)
     unfold txs_sweep. rewrite Btxs in Hvalid.
     rewrite Hvalid, Edup. reflexivity.
   Qed.
 
-  Notation bundleM := (bundle chain view cv tx_valid gt_ok work_needed hchain mroot).
+  Notation bundleM := (bundle chain view cv tx_valid gt_screen work_needed hchain mroot).
   Notation can_bundleM := (can_bundle chain view work_needed).
   Notation intakeM := (add_transaction_if_validates chain tx_valid).
 
@@ -589,7 +594,8 @@ Section Main.
     count_type TIssuance drained = 0 ->
     (v_stake_req (view (n_chain _ n)) = 0 \/ count_type TBlockStake kept = 1) ->
     forallb (tx_valid (n_chain _ n) (n_ledger _ n)) (b_txs b) = true ->
-    work_needed (par_burnfee p) ts (par_ts p) (v_heartbeat (view (n_chain _ n))) <= nsum (map t_work kept) ->
+    work_needed (par_burnfee p) ts (par_ts p) (v_heartbeat (view (n_chain _ n)))
+      <= nsum (map t_work (opt_list gt ++ kept)) ->
     validateM dbg n true b = Ok true.
   Proof.
     intros dbg n creator ts gt drained b p Htip Hcreate c0 kept cC cV Hag Hty Hfeegt Hgt Hpool Hne Hiss Hstake Hvalid Hwork.
@@ -602,13 +608,13 @@ Section Main.
 
   (* ---------------------------------------------------------------- bundle_block *)
   Lemma screen_inv (n : nodeM) m gt gt' m0 :
-    screen_ticket chain view gt_ok n m gt = (gt', m0) ->
+    screen_ticket chain view gt_screen n m gt = (gt', m0) ->
     m_txs m0 = m_txs m /\ m_work m0 = m_work m /\ m_umap m0 = m_umap m
-    /\ (forall g, gt' = Some g -> gt = Some g /\ gt_ok (n_chain _ n) g = true /\ m0 = m)
-    /\ (gt' = None -> gt = None /\ m0 = m \/ exists g, gt = Some g /\ gt_ok (n_chain _ n) g = false /\ m0 = drop_ticket chain view n m g).
+    /\ (forall g, gt' = Some g -> gt = Some g /\ gt_screen (n_chain _ n) g = true /\ m0 = m)
+    /\ (gt' = None -> gt = None /\ m0 = m \/ exists g, gt = Some g /\ gt_screen (n_chain _ n) g = false /\ m0 = drop_ticket chain view n m g).
   Proof.
     unfold screen_ticket. destruct gt as [g|].
-    - destruct (gt_ok _ g) eqn:E; intros H; injection H as <- <-; cbn.
+    - destruct (gt_screen _ g) eqn:E; intros H; injection H as <- <-; cbn.
       + split; [reflexivity|]. split; [reflexivity|]. split; [reflexivity|]. split.
         * intros x Hx. injection Hx as <-. auto.
         * intros Hx. discriminate Hx.
@@ -625,7 +631,7 @@ Section Main.
     v_tip (view (n_chain _ n)) = Some p ->
     bundleM dbg n creator m ts gt stake order = Ok (Bundled b, m') ->
     exists gt' m0 w s m1,
-      screen_ticket chain view gt_ok n m gt = (gt', m0)
+      screen_ticket chain view gt_screen n m gt = (gt', m0)
       /\ can_bundleM n m0 ts (is_some gt') = Some w /\ stake = Some s /\ intakeM dbg n m0 s = Ok m1
       /\ createF dbg n creator ts gt' (drain_in order (m_txs m1)) = Ok b
       /\ m_gts m' = m_gts m0 /\ m_txs m' = [].
@@ -645,7 +651,7 @@ Section Main.
     v_tip (view (n_chain _ n)) = Some p ->
     bundleM dbg n creator m ts gt stake order = Ok (Bundled b, m') ->
     forall gt' m0 s m1,
-    screen_ticket chain view gt_ok n m gt = (gt', m0) ->
+    screen_ticket chain view gt_screen n m gt = (gt', m0) ->
     stake = Some s -> intakeM dbg n m0 s = Ok m1 ->
     let drained := drain_in order (m_txs m1) in
     let c0 := cv (n_chain _ n) (n_ledger _ n) (pre_block (Some p) (par_hash p) creator ts gt' drained) in
@@ -656,6 +662,9 @@ Section Main.
     cv_types_ok cC = true ->
     (c_fee_tx cC <> None -> gt' <> None) ->
     (forall g, gt = Some g -> is_type TGoldenTicket g = true) ->
+    (* what passes bundle_block's screen passes Block::validate's ticket check (fails for a ticket
+       that names the all-zero key: finding zero-key-ticket-passes-screen) *)
+    (forall g, gt = Some g -> gt_screen (n_chain _ n) g = true -> gt_ok (n_chain _ n) g = true) ->
     pool_types_ok (m_txs m1) = true ->
     count_type TIssuance (m_txs m1) = 0 ->
     (v_stake_req (view (n_chain _ n)) = 0 \/ count_type TBlockStake kept = 1) ->
@@ -669,7 +678,7 @@ Section Main.
     acceptsM dbg n b = Ok true.
   Proof.
     intros dbg n creator m ts gt stake order b m' p Htip Hb gt' m0 s m1 Hsc Hs Hi drained c0 kept cC cV
-           Hag Hty Hfeegt Hgt Hpool Hiss Hstake Hvalid Hcache Hne Hkw Hsupply.
+           Hag Hty Hfeegt Hgt Hscr Hpool Hiss Hstake Hvalid Hcache Hne Hkw Hsupply.
     destruct (bundle_inv dbg n creator m ts gt stake order b m' p Htip Hb)
       as (gt2 & m02 & w & s' & m1' & Hsc' & Hgate & Hs' & Hi' & Hcreate & _ & _).
     rewrite Hsc in Hsc'. injection Hsc' as <- <-.
@@ -681,7 +690,7 @@ Section Main.
     assert (Hsup : nsum (map t_work (m_txs m0)) <= nsum (map t_work (m_txs m1))).
     { destruct (intake_txs dbg n m0 s m1 Hi) as [[->|[-> _]] _]; [lia|apply nsum_work_cons]. }
     assert (Hgt' : forall g, gt' = Some g -> is_type TGoldenTicket g = true /\ gt_ok (n_chain _ n) g = true).
-    { intros g Hg. destruct (Hsome g Hg) as (Hgg & Hok & _). split; [now apply Hgt|exact Hok]. }
+    { intros g Hg. destruct (Hsome g Hg) as (Hgg & Hok & _). split; [now apply Hgt|now apply Hscr]. }
     assert (Hgt1 : forall g, gt' = Some g -> is_type TGoldenTicket g = true) by (intros g Hg; apply (Hgt' g Hg)).
     assert (Hpool' : pool_types_ok drained = true).
     { unfold pool_types_ok in *. rewrite (forallb_perm _ _ _ Hperm). exact Hpool. }
@@ -699,7 +708,7 @@ Section Main.
     apply produced_validates_F with (creator := creator) (ts := ts) (gt := gt') (drained := drained) (p := p); auto.
     - unfold cv_types_ok. fold c0 kept cC. rewrite Hatr. cbn [andb]. exact Hfeety.
     - unfold count_type in *. rewrite (countb_perm _ _ _ Hperm). exact Hiss.
-    - fold c0 kept. destruct Hkw as [Hkw|Hkw]; [|exact Hkw].
+    - fold c0 kept. rewrite map_app, nsum_app. destruct Hkw as [Hkw|Hkw]; [|lia].
       rewrite Htx0, Hw0 in *. lia.
   Qed.
 
@@ -738,6 +747,7 @@ Section Main.
     unfold validate. cbv zeta.
     repeat step_if.
     unfold parent_of. rewrite Htip, Hprev, N.eqb_refl, Hghost.
+    destruct (negb (b_id b =? par_id p + 1)); cbn [bind]; [discriminate|].
     destruct (uadd dbg _ _) as [t1| |s2]; cbn [bind]; try discriminate.
     destruct (usub dbg _ _) as [tr| |s3]; cbn [bind]; try discriminate.
     destruct (vu && negb (b_treasury b =? tr)); cbn [bind]; [discriminate|].
@@ -771,7 +781,7 @@ Section Main.
   (* ---------------------------------------------------------------- fix e0300b2: the producer recovers *)
   Theorem bad_ticket_dropped : forall dbg (n : nodeM) creator m ts g stake order,
     (match v_tip (view (n_chain _ n)) with Some p => par_ts p | None => 0 end) < ts ->
-    gt_ok (n_chain _ n) g = false ->
+    gt_screen (n_chain _ n) g = false ->
     bundleM dbg n creator m ts (Some g) stake order
     = bundleM dbg n creator (drop_ticket chain view n m g) ts None stake order.
   Proof.
@@ -803,7 +813,7 @@ Section Main.
 
   Lemma bundle_keeps dbg (n : nodeM) creator m ts gt stake order out m' gt' m0 :
     (match v_tip (view (n_chain _ n)) with Some p => par_ts p | None => 0 end) < ts ->
-    screen_ticket chain view gt_ok n m gt = (gt', m0) ->
+    screen_ticket chain view gt_screen n m gt = (gt', m0) ->
     bundleM dbg n creator m ts gt stake order = Ok (out, m') ->
     m_gts m' = m_gts m0.
   Proof.
@@ -826,14 +836,14 @@ Section Main.
   Theorem producer_recovers : forall dbg (n : nodeM) creator m ts g stake order out m',
     (match v_tip (view (n_chain _ n)) with Some p => par_ts p | None => 0 end) < ts ->
     pick_gt m (tip_hash_of chain view n) = Some g ->
-    gt_ok (n_chain _ n) g = false ->
+    gt_screen (n_chain _ n) g = false ->
     bundleM dbg n creator m ts (pick_gt m (tip_hash_of chain view n)) stake order = Ok (out, m') ->
     pick_gt m' (tip_hash_of chain view n) = None
     /\ bundleM dbg n creator (drop_ticket chain view n m g) ts None stake order = Ok (out, m').
   Proof.
     intros dbg n creator m ts g stake order out m' Hts Hpick Hbad H. rewrite Hpick in H.
     split.
-    - assert (Hsc : screen_ticket chain view gt_ok n m (Some g) = (None, drop_ticket chain view n m g)).
+    - assert (Hsc : screen_ticket chain view gt_screen n m (Some g) = (None, drop_ticket chain view n m g)).
       { unfold screen_ticket. now rewrite Hbad. }
       unfold pick_gt. rewrite (bundle_keeps dbg n creator m ts (Some g) stake order out m' None _ Hts Hsc H).
       apply drop_ticket_unpicks.
@@ -844,11 +854,11 @@ Section Main.
   Theorem bundled_ticket_solves : forall dbg (n : nodeM) creator m ts gt stake order b m' p g,
     v_tip (view (n_chain _ n)) = Some p ->
     bundleM dbg n creator m ts gt stake order = Ok (Bundled b, m') ->
-    fst (screen_ticket chain view gt_ok n m gt) = Some g ->
-    gt = Some g /\ gt_ok (n_chain _ n) g = true.
+    fst (screen_ticket chain view gt_screen n m gt) = Some g ->
+    gt = Some g /\ gt_screen (n_chain _ n) g = true.
   Proof.
     intros dbg n creator m ts gt stake order b m' p g Htip Hb Hs.
-    destruct (screen_ticket chain view gt_ok n m gt) as [gt' m0] eqn:E. cbn in Hs. subst gt'.
+    destruct (screen_ticket chain view gt_screen n m gt) as [gt' m0] eqn:E. cbn in Hs. subst gt'.
     destruct (screen_inv n m gt (Some g) m0 E) as (_ & _ & _ & H & _).
     destruct (H g eq_refl) as (H1 & H2 & _). auto.
   Qed.
@@ -888,23 +898,25 @@ Section Main.
     /\ e_difficulty V = e_difficulty C
     /\ c_total_rebroadcast_slips cV = nsum (map t_atr_slips (c_rebroadcasts cC))
     /\ c_rebroadcast_hash cV = hchain (map t_id (c_rebroadcasts cC))
+    /\ same_inputs (c_rebroadcasts cC) (c_rebroadcasts cV) = true
     /\ match c_fee_tx cC with
        | Some f => exists f', c_fee_tx cV = Some f' /\ t_id f' = t_id f
-       | None => True
+       | None => c_fee_tx cV = None
        end.
   Proof.
     intros dbg cC cV. cbv zeta. unfold agreesb.
     rewrite !andb_true_iff, !N.eqb_eq.
     split.
-    - intros [[[[[Hg Hbf] Hdf] Hsl] Hrh] Hft].
+    - intros [[[[[[Hg Hbf] Hdf] Hsl] Hrh] Hsi] Hft].
       destruct (uadd dbg _ _) as [tf| |s] eqn:Etf; try discriminate.
       apply eqb_lN_eq in Hg. unfold guarded_fields, set_total_fees in Hg. cbn in Hg.
       injection Hg as H1 H2 H3 H4 H5 H6 H7 H8 H9 H10 H11 H12 H13 H14 H15 H16 H17 H18 H19 H20.
       rewrite H1. repeat (split; [first [reflexivity|assumption]|]).
-      destruct (c_fee_tx cC) as [f|]; [|exact I].
-      destruct (c_fee_tx cV) as [f'|]; [|discriminate]. exists f'. split; [reflexivity|now apply N.eqb_eq].
+      destruct (c_fee_tx cC) as [f|].
+      + destruct (c_fee_tx cV) as [f'|]; [|discriminate]. exists f'. split; [reflexivity|now apply N.eqb_eq].
+      + destruct (c_fee_tx cV); [discriminate|reflexivity].
     - intros (H1 & H2 & H3 & H4 & H5 & H6 & H7 & H8 & H9 & H10 & H11 & H12 & H13 & H14 & H15 & H16
-              & H17 & H18 & H19 & H20 & Hbf & Hdf & Hsl & Hrh & Hft).
+              & H17 & H18 & H19 & H20 & Hbf & Hdf & Hsl & Hrh & Hsi & Hft).
       rewrite H1. repeat split; try assumption.
       + assert (E : guarded_fields (c_econ cV)
                     = guarded_fields (set_total_fees (c_econ cC) (e_total_fees (c_econ cV)))).
@@ -912,13 +924,12 @@ Section Main.
           rewrite H2, H3, H4, H5, H6, H7, H8, H9, H10, H11, H12, H13, H14, H15, H16, H17, H18, H19, H20.
           reflexivity. }
         rewrite E. apply eqb_lN_refl.
-      + destruct (c_fee_tx cC) as [f|]; [|reflexivity].
+      + destruct (c_fee_tx cC) as [f|]; [|now rewrite Hft].
         destruct Hft as (f' & -> & E). now apply N.eqb_eq.
   Qed.
 
-
   (* ---------------------------------------------------------------- outside the listed classes *)
-  Notation KnownM := (Known_C07 chain view cv tx_valid hchain).
+  Notation KnownM := (Known_C07 chain view cv tx_valid gt_ok work_needed).
 
   Theorem produced_validates_outside_known : forall dbg (n : nodeM) creator ts gt drained b p,
     v_tip (view (n_chain _ n)) = Some p ->
@@ -927,25 +938,186 @@ Section Main.
     let c0 := cv (n_chain _ n) (n_ledger _ n) (pre_block (Some p) (par_hash p) creator ts gt drained) in
     let kept := kept_pool c0 drained in
     let cC := cv (n_chain _ n) (n_ledger _ n) (pre_block (Some p) (par_hash p) creator ts gt kept) in
+    let cV := cv (n_chain _ n) (n_ledger _ n) b in
+    agreesb dbg hchain cC cV = true ->
     cv_types_ok cC = true ->
     (c_fee_tx cC <> None -> gt <> None) ->
-    (forall g, gt = Some g -> is_type TGoldenTicket g = true /\ gt_ok (n_chain _ n) g = true) ->
+    (forall g, gt = Some g -> is_type TGoldenTicket g = true) ->
     pool_types_ok drained = true ->
     kept <> [] ->
     (v_stake_req (view (n_chain _ n)) = 0 \/ count_type TBlockStake kept = 1) ->
-    work_needed (par_burnfee p) ts (par_ts p) (v_heartbeat (view (n_chain _ n))) <= nsum (map t_work kept) ->
     validateM dbg n true b = Ok true.
   Proof.
-    intros dbg n creator ts gt drained b p Htip Hcreate Hk c0 kept cC Hty Hfeegt Hgt Hpool Hne Hstake Hwork.
-    assert (Hgt1 : forall g, gt = Some g -> is_type TGoldenTicket g = true) by (intros g Hg; apply (Hgt g Hg)).
+    intros dbg n creator ts gt drained b p Htip Hcreate Hk c0 kept cC cV Hag Hty Hfeegt Hgt1 Hpool Hne Hstake.
     unfold Known_C07 in Hk. cbv zeta in Hk.
     rewrite (create_pre_eq n creator ts gt drained p Htip Hgt1) in Hk. cbn [fst snd] in Hk.
-    fold c0 kept cC in Hk.
-    rewrite !orb_false_iff in Hk. destruct Hk as [[K1 K2] K4].
-    apply negb_false_iff in K1, K2.
+    fold c0 kept in Hk. rewrite Htip in Hk.
+    change (b_txs (pre_block (Some p) (par_hash p) creator ts gt kept)) with (opt_list gt ++ kept) in Hk.
+    rewrite !orb_false_iff in Hk. destruct Hk as [[[K1 K2] K3] K4].
+    apply negb_false_iff in K2.
     apply produced_validates_F with (creator := creator) (ts := ts) (gt := gt) (drained := drained) (p := p); auto.
-    apply N.ltb_ge in K4. lia.
+    - intros g Hg. split; [now apply Hgt1|]. rewrite Hg in K4. now apply negb_false_iff in K4.
+    - apply N.ltb_ge in K1. lia.
+    - fold c0 kept. apply N.ltb_ge in K3. exact K3.
   Qed.
+
+  (* ---------------------------------------------------------------- the window (fix bb88717) *)
+  Section Window.
+    Variable key_block : N -> N.
+    Variables gp next : N.
+
+    (* a pool whose inputs the next block may still spend collides with no rebroadcast of that
+       block: Block::create leaves nothing out *)
+    Theorem young_pool_kept : forall c0 d,
+      rebroadcasts_due key_block gp next c0 = true ->
+      young_pool key_block gp next d = true ->
+      kept_pool c0 d = d.
+    Proof.
+      intros c0 d Hdue Hy. unfold kept_pool. destruct (is_nil _); [reflexivity|].
+      unfold young_pool in Hy. unfold rebroadcasts_due in Hdue. rewrite forallb_forall in Hy, Hdue.
+      induction d as [|t r IH]; cbn [filter]; [reflexivity|].
+      assert (Hk : keepf c0 t = true).
+      { unfold keepf. apply orb_true_iff. right. apply negb_true_iff.
+        unfold collides. destruct (existsb _ (t_inputs t)) eqn:E; [|reflexivity]. exfalso.
+        apply existsb_exists in E. destruct E as (k & Hk & Hm).
+        unfold mem in Hm. apply existsb_exists in Hm. destruct Hm as (k' & Hk' & Ekk).
+        apply N.eqb_eq in Ekk. subst k'.
+        pose proof (Hdue k Hk') as H1. apply N.eqb_eq in H1.
+        pose proof (Hy t (or_introl eq_refl)) as H2. unfold young_tx in H2. rewrite forallb_forall in H2.
+        pose proof (H2 k Hk) as H3. apply N.leb_le in H3. lia. }
+      rewrite Hk. f_equal. apply IH. intros x Hx. apply Hy. now right.
+    Qed.
+
+    (* the intake keeps the pool young as long as the tip does not move: Transaction::validate
+       refuses older inputs (hypothesis on the abstract tx_valid) *)
+    Theorem intake_keeps_young : forall dbg (n : nodeM) m t m1,
+      (forall x, tx_valid (n_chain _ n) (n_ledger _ n) x = true -> young_tx key_block gp next x = true) ->
+      young_pool key_block gp next (m_txs m) = true ->
+      intakeM dbg n m t = Ok m1 ->
+      young_pool key_block gp next (m_txs m1) = true.
+    Proof.
+      intros dbg n m t m1 Hv Hy H. unfold add_transaction_if_validates in H.
+      destruct (producer_only t); [injection H as <-; exact Hy|].
+      destruct (is_type TBlockStake t && negb (t_own t)); [injection H as <-; exact Hy|].
+      destruct (tx_valid _ _ t) eqn:Et; [|injection H as <-; exact Hy].
+      destruct (add_transaction_txs dbg m t m1 H) as [[->|[-> _]] _]; [exact Hy|].
+      unfold young_pool. cbn [forallb]. rewrite (Hv t Et). exact Hy.
+    Qed.
+
+    (* hence, from a young pool, bundle_block's block is built from the whole pool: the
+       left-out branch of Block::create is dead and the work the gate counted is in the block *)
+    Theorem young_pool_nothing_left_out : forall dbg (n : nodeM) m s m1 order creator ts gt p,
+      v_tip (view (n_chain _ n)) = Some p ->
+      (forall x, tx_valid (n_chain _ n) (n_ledger _ n) x = true -> young_tx key_block gp next x = true) ->
+      young_pool key_block gp next (m_txs m) = true ->
+      intakeM dbg n m s = Ok m1 ->
+      let drained := drain_in order (m_txs m1) in
+      let c0 := cv (n_chain _ n) (n_ledger _ n) (pre_block (Some p) (par_hash p) creator ts gt drained) in
+      rebroadcasts_due key_block gp next c0 = true ->
+      kept_pool c0 drained = drained
+      /\ nsum (map t_work (m_txs m1)) <= nsum (map t_work (kept_pool c0 drained)).
+    Proof.
+      intros dbg n m s m1 order creator ts gt p Htip Hv Hy Hi drained c0 Hdue.
+      assert (Hy1 := intake_keeps_young dbg n m s m1 Hv Hy Hi).
+      assert (Hperm : Permutation drained (m_txs m1)) by apply drain_perm.
+      assert (Hyd : young_pool key_block gp next drained = true).
+      { unfold young_pool in *. rewrite (forallb_perm _ _ _ Hperm). exact Hy1. }
+      rewrite (young_pool_kept c0 drained Hdue Hyd). split; [reflexivity|].
+      rewrite (nsum_perm _ _ (Permutation_map t_work Hperm)). lia.
+    Qed.
+  End Window.
+
+  (* ---------------------------------------------------------------- a ticket that passes the screen
+     of bundle_block but not Block::validate (it names the all-zero key): the block is rejected and
+     the ticket stays where it is *)
+  Theorem screened_bad_ticket_stays : forall dbg (n : nodeM) creator m ts g stake order out m' p,
+    v_tip (view (n_chain _ n)) = Some p ->
+    par_ghost p = false ->
+    par_ts p < ts ->
+    pick_gt m (par_hash p) = Some g ->
+    is_type TGoldenTicket g = true ->
+    gt_screen (n_chain _ n) g = true ->
+    gt_ok (n_chain _ n) g = false ->
+    pool_types_ok (m_txs m) = true ->
+    (forall b0, cv_types_ok (cv (n_chain _ n) (n_ledger _ n) b0) = true) ->
+    bundleM dbg n creator m ts (pick_gt m (par_hash p)) stake order = Ok (out, m') ->
+    pick_gt m' (par_hash p) = Some g
+    /\ forall b, out = Bundled b -> acceptsM dbg n b <> Ok true.
+  Proof.
+    intros dbg n creator m ts g stake order out m' p Htip Hghost Hts Hpick Hg Hscr Hbad Hp Hcvty H.
+    rewrite Hpick in H.
+    assert (Hsc : screen_ticket chain view gt_screen n m (Some g) = (Some g, m)).
+    { unfold screen_ticket. now rewrite Hscr. }
+    assert (Hts' : (match v_tip (view (n_chain _ n)) with Some p0 => par_ts p0 | None => 0 end) < ts) by now rewrite Htip.
+    split.
+    - unfold pick_gt. rewrite (bundle_keeps dbg n creator m ts (Some g) stake order out m' (Some g) m Hts' Hsc H).
+      exact Hpick.
+    - intros b ->.
+      destruct (bundle_inv dbg n creator m ts (Some g) stake order b m' p Htip H)
+        as (gt' & m0 & w & s & m1 & Hsc' & _ & _ & Hi & Hcreate & _ & _).
+      rewrite Hsc in Hsc'. injection Hsc' as <- <-.
+      assert (Hpool1 : pool_types_ok (drain_in order (m_txs m1)) = true).
+      { unfold pool_types_ok. rewrite (forallb_perm _ _ _ (drain_perm order (m_txs m1))).
+        destruct (intake_txs dbg n m s m1 Hi) as [[->|[-> Hs]] _]; [exact Hp|].
+        cbn. rewrite Hs. exact Hp. }
+      unfold node_accepts. destruct (negb _); [discriminate|].
+      assert (Hv : validateM dbg n true b <> Ok true) by (eapply invalid_gt_rejected; eauto).
+      destruct (validate _ _ _ _ _ _ _ dbg n true b) as [[|]| |s1]; cbn [bind]; try discriminate.
+      congruence.
+  Qed.
+
+  (* add_block_failure removes under the hash of the FAILED block: the ticket for the tip stays *)
+  Lemma pick_gt_del m_g tip h : h <> tip ->
+    find (fun x : N * tx => fst x =? tip) (del_gt h m_g) = find (fun x : N * tx => fst x =? tip) m_g.
+  Proof.
+    intros Hne. unfold del_gt. induction m_g as [|[k t] r IH]; cbn; [reflexivity|].
+    destruct (k =? h) eqn:E1; cbn.
+    - apply N.eqb_eq in E1. subst k. destruct (h =? tip) eqn:E2; [apply N.eqb_eq in E2; congruence|exact IH].
+    - destruct (k =? tip); [reflexivity|exact IH].
+  Qed.
+
+  Lemma add_all_gts dbg m l m1 : add_all dbg m l = Ok m1 -> m_gts m1 = m_gts m.
+  Proof.
+    revert m. induction l as [|t r IH]; cbn; intros m; [intros [= <-]; reflexivity|].
+    destruct (add_transaction dbg m t) as [m2| |s] eqn:E; cbn [bind]; try discriminate.
+    intros H. rewrite (IH m2 H). apply (add_transaction_txs dbg m t m2 E).
+  Qed.
+
+  Lemma add_all_types dbg m l m1 :
+    add_all dbg m l = Ok m1 -> pool_types_ok (m_txs m) = true -> forallb pool_tx_ok l = true ->
+    pool_types_ok (m_txs m1) = true.
+  Proof.
+    revert m. induction l as [|t r IH]; cbn; intros m; [intros [= <-]; auto|].
+    destruct (add_transaction dbg m t) as [m2| |s] eqn:E; cbn [bind]; try discriminate.
+    rewrite andb_true_iff. intros H Hm [Ht Hr]. apply (IH m2 H); [|exact Hr].
+    destruct (add_transaction_txs dbg m t m2 E) as [[->|[-> _]] _]; [exact Hm|].
+    unfold pool_types_ok; cbn. now rewrite Ht.
+  Qed.
+
+  Lemma normal_pool_ok t : is_type TNormal t = true -> pool_tx_ok t = true.
+  Proof.
+    intros H. unfold pool_tx_ok.
+    rewrite (is_type_other TNormal TGoldenTicket t H), (is_type_other TNormal TFee t H),
+            (is_type_other TNormal TATR t H) by discriminate. reflexivity.
+  Qed.
+
+  Lemma after_failure_inv dbg (n : nodeM) m h mine b m1 tip :
+    after_failure chain tx_valid dbg n m h mine b = Ok m1 -> h <> tip ->
+    pool_types_ok (m_txs m) = true ->
+    pick_gt m1 tip = pick_gt m tip /\ pool_types_ok (m_txs m1) = true.
+  Proof.
+    unfold after_failure. intros H Hne Hp. destruct mine.
+    - destruct (add_all dbg _ _) as [m2| |s] eqn:E; cbn [bind] in H; try discriminate.
+      injection H as <-. cbn [m_gts m_txs]. split.
+      + unfold pick_gt. cbn [m_gts]. rewrite (add_all_gts _ _ _ _ E). cbn [m_gts].
+        now rewrite pick_gt_del.
+      + apply (add_all_types _ _ _ _ E); [exact Hp|].
+        rewrite forallb_forall. intros t Ht. apply filter_In in Ht. destruct Ht as [_ Ht].
+        rewrite andb_true_iff in Ht. apply normal_pool_ok. apply Ht.
+    - injection H as <-. cbn [m_gts m_txs]. split; [|exact Hp].
+      unfold pick_gt. cbn [m_gts]. now rewrite pick_gt_del.
+  Qed.
+
 
   (* ---------------------------------------------------------------- ways of not producing *)
   Theorem bundle_ts_declines : forall dbg (n : nodeM) creator m ts gt stake order p,
@@ -1004,7 +1176,7 @@ Section Main.
   Theorem create_failure_restores : forall dbg (n : nodeM) creator m ts gt stake order m',
     bundleM dbg n creator m ts gt stake order = Ok (CreateFailed, m') ->
     exists gt' m0 s m1,
-      screen_ticket chain view gt_ok n m gt = (gt', m0) /\ stake = Some s /\ intakeM dbg n m0 s = Ok m1
+      screen_ticket chain view gt_screen n m gt = (gt', m0) /\ stake = Some s /\ intakeM dbg n m0 s = Ok m1
       /\ m_txs m' = handed_back chain view cv n creator ts gt' (drain_in order (m_txs m1))
       /\ m_work m' = nsum (map t_work (m_txs m'))
       /\ m_umap m' = flat_map t_inputs (m_txs m')
